@@ -109,9 +109,68 @@ def build_pair(case):
     return atoms, info, float(np.linalg.norm(s1 - s2))
 
 
+def run_double(case):
+    """Two cysteine pairs in one structure (bridge detection must not stop
+    after, or be disturbed by, another pair)."""
+    from pdb2pqr import aa
+
+    res = {"evals": 1, "violations": [], "events": {}, "nontrivial": []}
+    atoms, info, ds = [], [], []
+    for k, d in enumerate(case["ds"]):
+        a, i, dd = build_pair({"d": d, "pos": case["pos"], "hg": "none",
+                               "layout": "AB"})
+        for at in a:
+            at["xyz"] = at["xyz"] + np.array([0.0, 0.0, 40.0 * k])
+            at["res_seq"] += 20 * k
+            at["chain"] = "ABCD"[2 * k + (0 if at["chain"] == "A" else 1)]
+        for inf in i:
+            inf["res_seq"] += 20 * k
+        atoms += a
+        info += i
+        ds.append(dd)
+    ff = case["ff"]
+    opts = list(case["opts"]) + [f"--ff={ff}"]
+    r = pipeline.run(build.pdb_text(atoms), opts)
+    if not r.ok:
+        res["events"][f"run-failed:{ff}"] = 1
+        return res
+    cys = [x for x in r.bm.residues if isinstance(x, aa.CYS)]
+    viol = []
+    sides = ["below" if d < 2.5 else "above" for d in ds]
+    tag = f"double:{'+'.join(sides)}/{case['pos']}"
+    for k, side in enumerate(sides):
+        pair = [c for c in cys if 20 * k < c.res_seq <= 20 * k + 20]
+        if len(pair) != 2:
+            viol.append((f"C13/{tag}/pair{k}/cys-count", {"n": len(pair)}))
+            continue
+        a, b = pair
+        has = [x.has_atom("HG") for x in pair]
+        mutual = (a.ss_bonded_partner is b.get_atom("SG")
+                  and b.ss_bonded_partner is a.get_atom("SG"))
+        if side == "below" and (any(has) or not mutual):
+            viol.append((f"C13/{tag}/pair{k}/not-bridged-symmetrically",
+                         {"has_hg": has, "mutual": mutual, "d": ds[k]}))
+        if side == "above" and (not all(has) or a.ss_bonded or b.ss_bonded):
+            viol.append((f"C13/{tag}/pair{k}/not-free", {"has_hg": has,
+                                                         "d": ds[k]}))
+    pv, _ev, _cells = c01.check_assignment(r, info, ff, opts)
+    for sig, detail in pv:
+        viol.append((sig.replace("C01/e2e", f"C13/{tag}/parameters", 1), detail))
+    res["nontrivial"] = [f"{tag}/{ff}"]
+    res["events"][f"outcome:{tag}"] = 1
+    seen = set()
+    for sig, detail in viol:
+        if sig not in seen:
+            seen.add(sig)
+            res["violations"].append({"sig": sig, "detail": detail})
+    return res
+
+
 def run_case(case):
     from pdb2pqr import aa
 
+    if case.get("mode") == "double":
+        return run_double(case)
     res = {"evals": 1, "violations": [], "events": {}, "nontrivial": []}
     atoms, info, d = build_pair(case)
     if abs(d - 2.5) < 1e-9:
@@ -186,4 +245,11 @@ def enumerate_cases(tier, seed):
                             cases.append({"ff": ff, "opts": opts,
                                           "layout": layout, "hg": hg,
                                           "pos": pos, "d": d})
+    for ff in ffs[:2]:
+        for pos in corpus.POSITIONS:
+            for d1 in (2.04, 2.49, 2.51, 3.0):
+                for d2 in (2.04, 2.49, 2.51, 3.0):
+                    cases.append({"mode": "double", "ff": ff, "pos": pos,
+                                  "ds": [d1, d2],
+                                  "opts": ["--nodebump", "--noopt"]})
     return cases
